@@ -25,7 +25,7 @@ LEVEL_NOTE = ('trusted: CPython ast positions, tokenize; ownership rules for par
 RULE = ('enum: case = (program, node path, query) or (program, rectangle, function); non-trivial = distinct located nodes / '
         'rectangles with a non-None answer; states = distinct (program, node); traces = answers compared with the oracle')
 ASSUMPTIONS = ['read-only', 'brute force for find_* ranges over the nodes of walk("loc") (validated by C14)']
-BOUNDS = {'quick': '135 programs; every node; extents of the roots of 468 undelimited multi-line fragments; the same laws on every tree reached by one edit (comment put, replace, remove, insert) after all cacheable queries; rectangles with token-boundary corners on programs <= 40 tokens',
+BOUNDS = {'quick': '137 programs; every node; extents of the roots of 468 undelimited multi-line fragments; the same laws on every tree reached by one edit (comment put, replace, remove, insert) after all cacheable queries; rectangles with token-boundary corners on programs <= 40 tokens',
           'thorough': 'quick + rectangles with corners at token boundaries +-1 + corpus sweep of /repo/src/fst/*.py (nodes only)'}
 
 PARS = [
@@ -85,7 +85,11 @@ FSTRDBG = [  # containers inside self-documenting f-string fields (their text is
     "print(f\"{lookup(lo, hi, default=None)=}\")",
     "s = f'{[a, b, c] = } {d = !r}'\nt = f\"{ {k: v, **w} = }\"",
 ]
-PROGS = BASE + EXTRA + TRICKY + PARS + LOCS + MULTILINE + FSTRDBG
+DECOS = [  # several decorators with nested calls above a def / class (edits inside one of them keep the line count)
+    "@app.route(prefix('/users'), methods=['GET'])\n@login_required\n@cache(60)\ndef view(): pass",
+    "class K:\n    @d1(a(b), c)\n    @d2\n    class I(B): x = 1",
+]
+PROGS = BASE + EXTRA + TRICKY + PARS + LOCS + MULTILINE + FSTRDBG + DECOS
 for _p in PROGS:
     ast.parse(_p)
 
@@ -514,8 +518,12 @@ def check_after_edits(fst, pi, res):
             E.apply(fst, root, op)
         except Exception:  # noqa: BLE001
             continue
-        if root.src == src or live_vs_parse(root, 'Module'):
-            continue  # nothing happened / the tree itself is wrong: C01's business
+        if root.src == src:
+            continue  # nothing happened
+        try:
+            ast.parse(root.src)
+        except SyntaxError:
+            continue  # unparsable result: C01's business (positions have no meaning)
         res.outcomes['edited-tree-checked'] += 1
         check_program(fst, pi, root.src, 'quick', res, rects=False, root=root, tag='after ' + E.op_id(op) + '/',
                       rep={'prog': pi, 'after': op})
